@@ -48,6 +48,20 @@ Theorem C19_grounded_classes : forall F n cls, compact_af F n -> compute_classes
   (forall v, In (GroundedDefeated v) cls -> forall S d, co F S -> In d v -> ~ In d S).
 Proof. exact EquivProofs.classes_grounded. Qed.
 
+(* the "in particular" clause: for the grounded extension G (gr F G), every Grounded class is exactly
+   G, every GroundedDefeated class is exactly the set of arguments attacked by G, and no other class
+   contains an argument of G or an argument attacked by G.  Together with the partition: all
+   arguments of G sit in one class, all arguments it defeats sit in one class. *)
+Theorem C19_grounded_exact : forall F n cls, compact_af F n -> compute_classes F = Done cls ->
+  forall G, gr F G ->
+  forall c, In c cls ->
+    match c with
+    | Grounded v => forall x, In x v <-> In x G
+    | GroundedDefeated v => forall d, In d v <-> exists g, In g G /\ att F g d
+    | NotGrounded v => forall x, In x v -> ~ In x G /\ ~ exists g, In g G /\ att F g x
+    end.
+Proof. exact EquivProofs.grounded_exact_classes. Qed.
+
 (* (d) the two maps: init_to_reduced is total on 0..n-1 and lands on the class of its argument,
    reduced_to_init r is the r-th class, and every member of the r-th class is mapped to r
    (hence the class of an argument is unique) *)
@@ -82,5 +96,6 @@ Print Assumptions C19_classes_total.
 Print Assumptions C19_classes_partition.
 Print Assumptions C19_same_complete_extensions.
 Print Assumptions C19_grounded_classes.
+Print Assumptions C19_grounded_exact.
 Print Assumptions C19_maps.
 Print Assumptions C19_computer_fields.
